@@ -16,7 +16,7 @@ CLAIMS = {
          "parsers is a conversion result unless its definition carries a documented waiver (R01b); in Rule.parse every "
          "path to the final return passes origin transform, element parser and validators loop under their guards, in "
          "order, with results assigned back; early exits are the two accepted shortcuts (R01c); stores into the binding "
-         "results of the lookup strategies and parse_params are parse results (R01d). R01a splits conditional returns into their arms and treats results of foreign parse functions (json.loads, ast.literal_eval) as unconverted input.",
+         "results of the lookup strategies and parse_params are parse results (R01d). R01a splits conditional returns into their arms and treats results of foreign parse functions (json.loads, ast.literal_eval) as unconverted input. Round 4: with subclasses admitted every converter return is built by the requested class (R01e); explicitly passed options are recorded whatever their value (R10h, shared).",
     note="Undecided: that each converter's constructor yields a conforming value for every input (value-level), "
          "_parse_decimal arithmetic, user-supplied converters.",
     technique="return-provenance with dominating type-guard facts, typestate (RAW/PARSED) of container stores, "
@@ -28,7 +28,7 @@ CLAIMS = {
          "subscript after a fallen-through range check (R04b); element parsers use only operations every dispatched "
          "container type supports (R04c); every while loop carries a recognised termination argument, numeric shrink "
          "loops a finiteness guard (R04d); the wrapped function / generated __init__ only ever receives the parser's "
-         "result (R04e). Decides the mechanism, not the value-level behaviour. Error constructors / message properties of the ParseError family never format the offending value (R04g); errors are handed to the context the owner flushes (R04f).",
+         "result (R04e). Decides the mechanism, not the value-level behaviour. Error constructors / message properties of the ParseError family never format the offending value (R04g); errors are handed to the context the owner flushes (R04f). Round 4: no regular expression the library matches against input text has exponential degree of ambiguity (R04i, automaton product test); an integer is built from an input-parsed Decimal only behind a magnitude bound (R04j); the staged union retries do not restart per nesting level (R18e, shared - known finding F34c: a cyclic mapping does not return).",
     note="Undecided: RecursionError by input depth (bounded only through C18), unbounded input iterators, exceptions "
          "raised by operations other than the enumerated foreign calls.",
     technique="AST + CFG exception-edge containment, interprocedural caller containment, provenance of error objects, "
@@ -49,7 +49,7 @@ CLAIMS = {
          "not index past a fallen-through range check (R10a); every context owner passes raise_error() between any "
          "point that may record an error (directly or via helpers sharing its context) and a normal return (R10b); the "
          "max_errors cap follows the append on every returning path with relation >= (R10c); only handle_error "
-         "branches on collect_errors (R10d). Options.__init__ rewrites a parameter only under a test of that parameter or a documented implication (R10f).",
+         "branches on collect_errors (R10d). Options.__init__ rewrites a parameter only under a test of that parameter or a documented implication (R10f). Round 4: enter() always constructs a child context (R10g); the options merge record holds every passed option whatever its value (R10h); no made-up empty result right after a recorded error (R10i).",
     note="Undecided: that the collected set names exactly the failing items (value-level).",
     technique="CFG reachability avoiding flush nodes, reaching definitions over exceptional edges, who-may-read rule",
     ref="DESIGN.md 3/C10"),
@@ -57,7 +57,7 @@ CLAIMS = {
     text="Static: every write to the registration list is followed on all paths by a reset of the resolve memo (R16a); "
          "after each front insertion the list is unconditionally stably sorted by the priority component, descending "
          "(R16b); every registration criterion reaches the generated detector with the documented polarity (R16c); "
-         "resolve consults shortcut, memo keyed by the type, the list in order, base, default (R16d). The memo reset follows the list change on every path, and the memo is filled only inside the own scan.",
+         "resolve consults shortcut, memo keyed by the type, the list in order, base, default (R16d). The memo reset follows the list change on every path, and the memo is filled only inside the own scan. Round 4: conversions must not be handed a converter resolved at declaration time (R16f; four sites are known findings F47a-d); no library metaclass overrides __eq__ / __hash__ (R16g).",
     note="Scoped to TypeRegistry; Rule.__origin_transformer__ memoisation at declaration time is documented behaviour.",
     technique="write/invalidate pairing on the CFG, idiom table for order maintenance, guard-fact polarity checks",
     ref="DESIGN.md 3/C16"),
@@ -68,7 +68,7 @@ CLAIMS = {
          "decimal_places <=, regex full match, const equality + type-exactness, enum membership, multiple_of remainder, "
          "unique_items, contains counts) (R02a); accept paths return the input unchanged except the documented "
          "normalisers (R02b); isinstance answers True only after isinstance(obj, origin) and a successful parse (R02c); "
-         "Field/apply accept every constraint keyword and forward it under its own name (R02d). No local is carried from one constraint to the next while the validators are compiled (R02e).",
+         "Field/apply accept every constraint keyword and forward it under its own name (R02d). No local is carried from one constraint to the next while the validators are compiled (R02e). Round 4: every normal path of Rule.__init_subclass__ rebuilds the validator list (R02f); no path of Rule.parse skips the validators (R01c, shared with C01).",
     note="Undecided: digit counting in _parse_decimal, multiple_of on floats, NaN (total-order normalisation on purpose).",
     technique="path-condition extraction per validator + operator-table comparison, dominance checks, keyword-table agreement",
     ref="DESIGN.md 3/C02"),
@@ -77,7 +77,7 @@ CLAIMS = {
          "per action the guard vector - admissible value classes of every Options attribute tested on the way, policy "
          "literals, polarity of the field predicates, closed under summaries of is_required / is_no_input / "
          "parse_addition read from their source - is identical in both (R06a); the alias-conflict comparison compares "
-         "raw with raw (R06b); the selector is exclusive, passes identical arguments, returns the result unchanged (R06c). Consumed-input bookkeeping (R06d), case normalisation (R06e), consumed keys marked on every path from `the field got a value` (R06f), the absence/default pass iterates all declared fields (R06g). Alias tables are rebuilt from empty tables (R06h); the extra-key pass is never gated by counts and keys are marked consumed only for fields that got a value (R06i).",
+         "raw with raw (R06b); the selector is exclusive, passes identical arguments, returns the result unchanged (R06c). Consumed-input bookkeeping (R06d), case normalisation (R06e), consumed keys marked on every path from `the field got a value` (R06f), the absence/default pass iterates all declared fields (R06g). Alias tables are rebuilt from empty tables (R06h); the extra-key pass is never gated by counts and keys are marked consumed only for fields that got a value (R06i). Round 4: alias tables are replaced, never merged into in place (R06h).",
     note="Undecided: equality of results in general (needs differential execution); ordering of result keys.",
     technique="sibling cross-check by must-fact guard vectors over a finite value-class domain with callee summaries",
     ref="DESIGN.md 3/C06"),
@@ -87,7 +87,7 @@ CLAIMS = {
          "reassigned input, | and ^ return the exact-type guarded input or a conversion of the original input (R09b); "
          "error discipline per branch, no return inside the ^ loop (R09c); operator methods build the combinator they "
          "denote, reflected operators keep operand order, double negation / dedupe / Any / collapse / flatten are "
-         "present (R09d). The exact-type guard is the bare comparison, not a disjunction admitting subclass instances. The union ends with an attempt under exactly the caller's options (R09e); building a combinator never modifies its operands (R09f); no break on the accepting path of ^.",
+         "present (R09d). The exact-type guard is the bare comparison, not a disjunction admitting subclass instances. The union ends with an attempt under exactly the caller's options (R09e); building a combinator never modifies its operands (R09f); no break on the accepting path of ^. Round 4: enter() opens a new layer on every path (R10g) and handle_error records before it raises (R10c), both shared with C10.",
     note="Undecided: 'accepts exactly when at least one accepts' as a relation over inputs.",
     technique="reaching definitions of the conversion subject per branch, provenance of returned values, guard facts",
     ref="DESIGN.md 3/C09"),
@@ -96,7 +96,7 @@ CLAIMS = {
          "every context.enter passes a non-None route and enter() chains context/route/options (R18b); data-class "
          "contexts are created with the caller's context along every hop (R18c); each staged retry of the union is "
          "guarded so that it is skipped when the current options already include the stage's flags - truth table over "
-         "the guard - with a final unconditional stage (R18d). Every write to the depth is the inherit form or the single increment and the depth error is raised, not collected (R18a); the creating context's conversion flags must survive the data-class boundary (R18e, known finding F34); no branch re-enters the combinator on its own input (R18f). Only enumerated data-class / function entries create a route-less context chained to a parent (R18g); length rejections precede conversions and no handler retries its own conversion (R18h).",
+         "the guard - with a final unconditional stage (R18d). Every write to the depth is the inherit form or the single increment and the depth error is raised, not collected (R18a); the creating context's conversion flags must survive the data-class boundary (R18e, known finding F34); no branch re-enters the combinator on its own input (R18f). Only enumerated data-class / function entries create a route-less context chained to a parent (R18g); length rejections precede conversions and no handler retries its own conversion (R18h). Round 4: context factories hand out the class's own options (R18i); a declared __init__ gets a parentless context (R18c, known finding F51); Options as class decorator returns a substitute subclass (R18j, known finding F52); R10b shared.",
     note="Undecided: the asymptotic bound as a measured quantity.",
     technique="None-exactness lint on the route parameter, call-chain argument flow, finite truth-table evaluation of guards",
     ref="DESIGN.md 3/C18"),
@@ -107,7 +107,7 @@ CLAIMS = {
          "is_required, nothing stored afterwards, defaults only when not required, is_required honours ignore_required / "
          "always_no_input (R05c); parse_addition is the ordered switch False->ExceedError, falsy->drop, no type->keep, "
          "type->convert (R05d); no_output gates before mapping stores, option precedence in get_default, lookup order "
-         "name->alias->case-insensitive (R05e). A field's own alias_from overrides the alias generator (R05f); parse-time defaults bind defer=False effectively, explicit or via the callee's declared default (R05g); a key that matched a declared field is marked consumed on every path (R06f). Inherited fields merge farthest-base-first (R05h); R05g covers every get_default call site.",
+         "name->alias->case-insensitive (R05e). A field's own alias_from overrides the alias generator (R05f); parse-time defaults bind defer=False effectively, explicit or via the callee's declared default (R05g); a key that matched a declared field is marked consumed on every path (R06f). Inherited fields merge farthest-base-first (R05h); R05g covers every get_default call site. Round 4: alias tables rebuilt from the current fields (R06h, shared).",
     note="Undecided (the core): alias/case tables as values, mode strings, option interactions - needs a reference model "
          "over declarations x inputs.",
     technique="must-pass-through / dominating guard facts per enforcement point, dead-branch (ordering) check on the switch",
@@ -117,7 +117,7 @@ CLAIMS = {
          "partitioned by the policy literal - EXCLUDE warns, never raises and reaches no store / value return; PRESERVE "
          "warns, never raises and reaches a store / return of exactly the raw element that failed; otherwise a ParseError "
          "goes to handle_error; the policy attribute matches the element kind (R11a); required fields raise under EXCLUDE "
-         "(R11b); element parsers apply only operations every dispatched container type supports (R04c). Every policy-guarded conversion runs on a child context from enter() (R11c). Under EXCLUDE parse_value returns get_default(...) (R11d); R10f also runs here.",
+         "(R11b); element parsers apply only operations every dispatched container type supports (R04c). Every policy-guarded conversion runs on a child context from enter() (R11c). Under EXCLUDE parse_value returns get_default(...) (R11d); R10f also runs here. Round 4: the per-field input policy comes from the field's own Field (R11g); R10h shared.",
     note="Undecided: the metamorphic equality with the filtered input (value-level).",
     technique="handler partition by policy atoms, CFG reachability of stores/returns per partition, provenance of the preserved element",
     ref="DESIGN.md 3/C11"),
@@ -139,7 +139,7 @@ CLAIMS = {
          "return types are re-resolved, nested types recursively (R17b); the late re-parse applies the constraints, key, "
          "pending table and globals stored with the pending reference (R17c); apply/__call__ dereference an evaluated "
          "ForwardRef before dispatch and raise for an unevaluated one (R17d); local-scope resets happen after "
-         "re-resolution and classes can resolve their own name (R17e). Each pending entry stores the reference object of its own annotation (R17f). The re-resolution hook is guarded by `resolved` only, ClassParser.globals always injects the class, evaluate_forward_ref passes the namespaces through unchanged (R17g).",
+         "re-resolution and classes can resolve their own name (R17e). Each pending entry stores the reference object of its own annotation (R17f). The re-resolution hook is guarded by `resolved` only, ClassParser.globals always injects the class, evaluate_forward_ref passes the namespaces through unchanged (R17g). Round 4: base parsers are resolved before a subclass (R17i); loop flags accumulate (R17j); re-resolution descends into a combined origin (R17k); R16d shared.",
     note="Undecided (the core): behavioural equivalence with the directly written declaration for every order of "
          "definition and first use.",
     technique="dominance / must-pass-through at entries, argument-flow checks on the late re-parse, statement order on the CFG",
@@ -170,7 +170,7 @@ CLAIMS = {
          "always_no_output agree with is_no_input / is_no_output on every value-independent declaration x mode point of "
          "an enumerated finite domain (R13e); container keywords items / prefixItems / patternProperties (R13f); the JSON "
          "kind returned by every registered encoder matches the primitive announced for its type (R13g); the name "
-         "returned by set_def is the one referenced (R13h). No generator method writes through a class-level container (R13i); R06f also runs here.",
+         "returned by set_def is the one referenced (R13h). No generator method writes through a class-level container (R13i); R06f also runs here. Round 4: properties / required are keyed by the declared field name and the output view consults every option under which get_default withholds a default (R13c); R06i and R18i shared.",
     note="Undecided: draft 2020-12 validity of the whole document and validation of arbitrary parser outputs against it "
          "(needs an independent validator over generated values). Known findings F29a/F29b (large / non-finite Decimal "
          "published as string under type number).",
@@ -200,7 +200,7 @@ CLAIMS = {
          "input-carrying parameter of the parse core, converters or validators (aliases, elements and attributes "
          "followed; copies break the chain) (R19b); every write to state that outlives the call, enumerated from the "
          "runtime entries over the receiver-aware call graph whether locked or not, is one of the listed semantically "
-         "transparent memos (R19c); the per-call context is never stored on a shared object (R19d). Objects the mutating helpers own by table are created for the call at every call site (R19e).",
+         "transparent memos (R19c); the per-call context is never stored on a shared object (R19d). Objects the mutating helpers own by table are created for the call at every call site (R19e). Round 4: R16d shared (the registry memo holds positive answers only).",
     note="Undecided: aliasing of unconverted containers between input and output (not a mutation during parsing); "
          "equality of outcomes across call histories (needs replay against fresh-process results).",
     technique="provenance of mutator receivers from input parameters, shared-write inventory over the call graph "
@@ -231,7 +231,7 @@ CLAIMS = {
          "(R15c, R15f); the translator recurses only on strict components of its schema argument, never through $ref "
          "resolution, and no call cycle passes the schema on unchanged (R15d); every condition that triggers the name "
          "sanitiser (base-class attributes, names already used, the loop's own un-sanitised keys) is handed to it, "
-         "fields and annotations share the sanitised key and the schema key is kept as alias (R15e). Memo keys of translations mention every argument (R15g); the sanitised name cannot start with an underscore and private-prefix names are sanitised (R15h); presence of const / default is decided by a sentinel, not truthiness (R15i).",
+         "fields and annotations share the sanitised key and the schema key is kept as alias (R15e). Memo keys of translations mention every argument (R15g); the sanitised name cannot start with an underscore and private-prefix names are sanitised (R15h); presence of const / default is decided by a sentinel, not truthiness (R15i). Round 4: combinator rules R09a-c, R10c, R10g and the context-options rule R18i are shared (anyOf / oneOf / not and nested objects).",
     note="Undecided: that every value the built type returns validates against the source schema (needs an independent "
          "validator on generated schemas and instances); keyword combinations Rule.annotate rejects (e.g. maximum "
          "together with exclusiveMaximum, a zero max length) - observed, not derivable by these rules.",
